@@ -62,12 +62,13 @@ def ammoHasHost (f : Format) (lines : List (Str × Str)) (e : Entry) : Bool :=
 def ammoHost (f : Format) (lines : List (Str × Str)) (e : Entry) : Str :=
   if urlHost f e ≠ [] then urlHost f e else (fileHost f lines).getD []
 
-/-- acceptable Host values: the ammo's when non-empty; without any the configured-or-target one; when the ammo
-gives an EMPTY Host line either reading (no Host / empty Host) is accepted -/
+/-- acceptable Host values: the ammo's when non-empty; without any the configured one (the first of several is what
+the model proves; any of them is accepted) or else the target's; when the ammo gives an EMPTY Host line either
+reading (no Host / empty Host) is accepted -/
 def hostOk (f : Format) (conf lines : List (Str × Str)) (e : Entry) (t : Str) (wire : Str) : Bool :=
   if ammoHost f lines e ≠ [] then wire = ammoHost f lines e
   else if ammoHasHost f lines e then wire = t || wire = confHost conf t
-  else wire = confHost conf t
+  else wire = confHost conf t || (wire ≠ [] && (valsOf conf hostKey).contains wire)
 
 /-- what the target recorded for one request -/
 structure Rec where
